@@ -86,6 +86,19 @@ fn mk_eff_store(cap: usize, init: St) -> Arc<Store> {
 
 /// scheduler: the reducer loop found its queue empty
 fn eff_block(kind: u8, obj: usize) {
+    unsafe {
+        if IN_BLOCK {
+            panic!("VERIF-DEADLOCK: a scheduled unit blocked");
+        }
+        IN_BLOCK = true;
+    }
+    eff_block_inner(kind, obj);
+    unsafe {
+        IN_BLOCK = false;
+    }
+}
+static mut IN_BLOCK: bool = false;
+fn eff_block_inner(kind: u8, obj: usize) {
     if kind == crossbeam::hooks::RECV && obj == 0 && rt::ctx() == rt::CTX_REDUCER {
         if let Some(k) = rusty_pool::ghost::next_pending() {
             rt::in_ctx(rt::CTX_POOL, || rusty_pool::ghost::run_task(k, false));
@@ -139,6 +152,7 @@ fn eff_setup(kinds: [u8; 2], k: usize, cap: usize) -> (Arc<Store>, [u8; MAXA]) {
     crossbeam::hooks::set_native(None, Some(eff_block));
     unsafe {
         STOP_CALLED = false;
+        IN_BLOCK = false;
         STOP_AT = 0;
         CLIENT_TASKS = 0;
         SUM_EFF = [0; MAXA];
